@@ -62,11 +62,17 @@ def s64(x):
 def analyse(text, label):
     """API-level oracle (stamps only) + split into per (thread, round) traces"""
     other, per = conc.parse_dump(text)
-    fails, traces, rounds = [], [], {}
+    fails, traces, rounds, hung = [], [], {}, set()
     for l in other:
         f = l.split()
         if f[0] == "S":
             rounds[int(f[1])] = dict(v=int(f[2]), n=int(f[3]), drained=int(f[4]), off=int(f[5]), rescues=int(f[6]))
+        elif f[0] == "H":
+            hung.add(int(f[1]))
+            fails.append({"key": "%s:round%s:lost-signal" % (label, f[1]), "round": int(f[1]), "label": label,
+                          "what": "semaphore created with %s, %s threads: %s thread(s) stayed blocked in dispatch_semaphore_wait "
+                                  "although %s further dispatch_semaphore_signal calls returned after everything else had "
+                                  "finished (a signal was lost)" % (f[2], f[3], f[5], f[4])})
     byround = {}
     for thr, evs in per.items():
         for e in evs:
@@ -177,7 +183,7 @@ def shape(tr):
 
 
 def correspond(ctx):
-    nseeds, rounds = (3, 80) if ctx.tier == "quick" else (12, 400)
+    nseeds, rounds = (3, 80) if ctx.tier == "quick" else (8, 250)
     fails, mism, alltr, total = [], [], [], {}
     for i in range(nseeds):
         seed = ctx.seed * 1000 + i
@@ -248,15 +254,33 @@ def correspond(ctx):
 
 
 def replay(ctx, obj):
+    """re-run the recorded seeds (same harness arguments) and judge them again with the API-level oracle"""
+    seeds = {}
     for f in obj.get("failures", []):
         print("recorded failure:", f.get("what"))
         lab = f.get("label", "seed1")
-        seed = int(lab.replace("seed", "")) if lab.startswith("seed") else 1
-        text = run_harness(ctx, seed, 80 if seed % 1000 < 3 else 400, [0, 150, 400][(seed % 1000) % 3])
-        f2, _, _ = analyse(text, lab)
-        print("re-run with seed %d: %d failures" % (seed, len(f2)))
+        seeds.setdefault(lab, int(lab.replace("seed", "")) if lab.startswith("seed") else 1)
+    for b in obj.get("broken", []):
+        print("no longer checks:", str(b)[:700])
+        d = b.get("detail", {}) if isinstance(b, dict) else {}
+        d = d.get("detail", {}) if isinstance(d, dict) else {}
+        if isinstance(d, dict) and "seed" in d:
+            seeds.setdefault("seed%d" % d["seed"], d["seed"])
+    again = 0
+    ok, out = common.coq_make(["Model/Sema.vo"])
+    if not ok:
+        print("model does not build:", out[-800:])
+        return 1
+    for lab, seed in sorted(seeds.items()):
+        quick = seed % 1000 < 3
+        text = run_harness(ctx, seed, 80 if quick else 250, [0, 150, 400][(seed % 1000) % 3])
+        f2, tr, _ = analyse(text, lab)
+        res = conc.coq_conform("c08_replay", ["Word", "Conc", "Gen_sema", "Sema"], "conform", [(sv, t) for (sv, t, _, _) in tr],
+                               chunk=300)
+        bad = sum(1 for (i, idle) in res if i != -1 or idle != 1)
+        again += len(f2) + bad
+        print("re-run with seed %d: %d oracle failures, %d of %d thread traces rejected by Sema.tstep_vis" %
+              (seed, len(f2), bad, len(tr)))
         for x in f2[:5]:
             print("  ", x["what"])
-    for b in obj.get("broken", []):
-        print("no longer checks:", b)
-    return 1
+    return 1 if again or not seeds else 0
